@@ -73,6 +73,11 @@ TPKT_READ = dict(
         ("C13", "frame1", "final(self).written() == old(self).written()"), ("C13", "frame2", "final(self).tls() == old(self).tls()"), ("C13", "frame3", "is_suffix(final(self).rest(), old(self).rest())"),
     ],
     pre="let ghost b = self.rest();",
+    # refusal justification: a frame is refused as too small only when its declared total length is below the size of its own header
+    # (4 slow path, 3 fast path long form, 2 fast path short form); the header itself was read completely at each of the three sites
+    claims=[(r"Err\(Error::RdpError\(RdpError::new\(RdpErrorKind::InvalidSize, \"Invalid minimal size for TPKT\"", 0,
+             "proof { assert(old(self).rest().len() >= frame_hdr(old(self).rest()) && frame_len(old(self).rest()) < frame_hdr(old(self).rest())); }",
+             "before", "C13,C03,C10", "refused-only-when-shorter-than-its-header")],
     hints=[
         (r"let mut action: u8 = 0;", 1, "proof { assert(buffer.rest() =~= b.take(2)); }"),
         (r"let mut size = U16::BE\(0\);", 1, "proof { assert(buffer.rest() =~= b.subrange(2, 4)); }"),
@@ -135,7 +140,7 @@ UNIT = Unit("frame", ["base.rs", "tls.rs", "model.rs", "leaf.rs", "lemmas.rs"], 
     Fn(TPKT, "read_body", impl=r"Client<S>", mod="tpkt", props=["C13"],
        ensures=[("C13", "exact", "r is Ok ==> old(self).rest().len() >= size && r->Ok_0@ == old(self).rest().take(size as int) && final(self).rest() == old(self).rest().skip(size as int)"),
                 ("C13", "frame1", "final(self).written() == old(self).written()"), ("C13", "frame2", "final(self).tls() == old(self).tls()"), ("C13", "frame3", "is_suffix(final(self).rest(), old(self).rest())")]),
-    Fn(TPKT, "read", impl=r"Client<S>", mod="tpkt", props=["C13", "C05"], **TPKT_READ),
+    Fn(TPKT, "read", impl=r"Client<S>", mod="tpkt", props=["C13", "C05", "C03", "C10"], **TPKT_READ),
     # ---------------- core/x224.rs (data path)
     Item(X224, "enum", "MessageType", mod="x224"),
     Item(X224, "enum", "Protocols", mod="x224", strip_derive=["TryFromPrimitive", "Debug"], try_from="u32"),
